@@ -118,7 +118,11 @@ func c07Call(e *evm.EVM, caller evm.ContractRef, addr common.Address, input []by
 
 func c07Create(e *evm.EVM, caller evm.ContractRef, code []byte, gas uint64, value *big.Int) ([]byte, common.Address, uint64, error) {
 	st := e.StateDB.(*c07State)
-	st.nonce[caller.Address()] = st.nonce[caller.Address()] + 1 // go-ethereum: create bumps the creator's nonce
+	// vm/evm.(*EVM).create: a creator that cannot pay `value` fails before its nonce is bumped
+	if !e.Context.CanTransfer(e.StateDB, caller.Address(), value) {
+		return nil, common.Address{}, gas, ErrInsufficientFundsForTransfer
+	}
+	st.nonce[caller.Address()] = st.nonce[caller.Address()] + 1 // then create bumps the creator's nonce
 	left, err := c07Run(e, caller, c07Callee, gas, value)
 	return nil, c07Callee, left, err
 }
